@@ -1,0 +1,5 @@
+//go:build !verif
+
+package app
+
+func verifRegisterVoteExtHandler(_ *App, _ *VoteExtHandler) {}
